@@ -492,6 +492,16 @@ def splice(template_path, repo_root, canary=False, quarantine=(), inline=None):
                 if inline and inline.get(oname):
                     from inline import inline_helpers
                     src_inl, r15 = inline_helpers(src_obj, kv["fn"], inline[oname])
+                    # nested helpers (a helper that calls another helper of the list: `validate` -> `port_count()` -> `bounds()`, seed
+                    # C17-13): the result is inlined again, up to three levels, until nothing more is found
+                    for _lvl in range(3):
+                        try:
+                            src_inl2, r15b = inline_helpers(src_inl, kv["fn"], inline[oname])
+                        except LostAnchor:
+                            break
+                        if src_inl2.src == src_inl.src:
+                            break
+                        src_inl, r15 = src_inl2, r15 + r15b
                     # an inlining that does not leave a well-bracketed file (e.g. a const ARRAY taken for a value to paste) is dropped:
                     # the name stays unknown and only that function is quarantined — not the whole unit (seed C12-11)
                     try:
